@@ -5,6 +5,8 @@ import (
 	"flag"
 	"fmt"
 	"os"
+	"runtime/pprof"
+	"sort"
 	"strings"
 )
 
@@ -52,7 +54,15 @@ func cmdRun(args []string) {
 	verbose := fs.Bool("v", false, "verbose")
 	trace := fs.Bool("trace", false, "trace instructions")
 	maxPaths := fs.Int("max-paths", 2000000, "path limit")
+	profile := fs.Bool("profile", false, "print solver query sites")
+	dump := fs.Bool("dump-paths", false, "print the decision trace of every path")
+	cpuprof := fs.String("cpuprofile", "", "write cpu profile")
 	fs.Parse(args)
+	if *cpuprof != "" {
+		f, _ := os.Create(*cpuprof)
+		pprof.StartCPUProfile(f)
+		defer pprof.StopCPUProfile()
+	}
 	ov, err := harnessOverlay(*repo, *hdir)
 	if err != nil {
 		fmt.Fprintln(os.Stderr, err)
@@ -75,7 +85,25 @@ func cmdRun(args []string) {
 			ex.trace = true
 			ex.workers = 1
 		}
+		ex.profile = *profile
+		ex.dump = *dump
 		st := ex.Run()
+		if *profile {
+			type kv struct {
+				k string
+				v int
+			}
+			var l []kv
+			for k, v := range ex.sites {
+				l = append(l, kv{k, v})
+			}
+			sort.Slice(l, func(a, b int) bool { return l[a].v > l[b].v })
+			for n, e := range l {
+				if n < 40 {
+					fmt.Fprintf(os.Stderr, "SITE %7d %s\n", e.v, e.k)
+				}
+			}
+		}
 		b, _ := json.MarshalIndent(map[string]interface{}{
 			"harness": h, "paths": st.Paths, "outcomes": st.Outcomes, "decisions": st.Decisions, "steps": st.Steps,
 			"queries": st.Queries, "inconclusive": st.Inconclusive, "reached": st.Reached, "candidates": st.Candidates,
